@@ -10,11 +10,6 @@ namespace Jrpc.Registry
 /-! ## Part A — tables -/
 namespace Tbl
 
-/-- keys are pairwise distinct -/
-def Uniq : Tbl → Prop
-  | [] => True
-  | (k, _) :: r => find r k = none ∧ Uniq r
-
 theorem find_insert (t : Tbl) (n : Name) (c : Cb) (m : Name) :
     find (insert t n c) m = if n = m then some c else find t m := by
   induction t with
@@ -648,4 +643,872 @@ theorem vAt_lt {v : VState} {i : Nat} {x : Bool × Tbl} (h : vAt v i = some x) :
   by_cases hl : i < v.length
   · exact hl
   · simp [vAt, List.getElem?_eq_none (Nat.le_of_not_lt hl)] at h
+
+/-! ## Part C — every implementation step commutes with the value-semantics step -/
+
+theorem viewAt_of_handle {s : State} {i : Nat} {h : Handle} (hi : handleAt s i = some h) :
+    viewAt s i = some (h.isModule, tblAt s h.cell) := by simp [viewAt, hi]
+
+theorem viewAt_of_none {s : State} {i : Nat} (hi : handleAt s i = none) : viewAt s i = none := by
+  simp [viewAt, hi]
+
+theorem sim_makeMut {s : State} {i : Nat} {h : Handle} (hI : Inv s) (hi : handleAt s i = some h) :
+    vview (makeMut s i h) = vview s := by
+  apply vview_eq
+  · simp [(makeMut_spec hI hi).len]
+  · intro j; rw [viewAt_makeMut hI hi, vAt_vview]
+
+theorem sim_write {s : State} {i : Nat} {h : Handle} (hI : Inv s) (hi : handleAt s i = some h)
+    (f : Tbl → Tbl) :
+    vview (writeMut s i h f) = (vview s).set i (some (h.isModule, f (tblAt s h.cell))) := by
+  have W := writeMut_spec hI hi f
+  apply vview_eq
+  · simp [W.len]
+  · intro j
+    rw [W.view, vAt_set _ _ _ _ (by simpa using handleAt_lt hi), vAt_vview]
+
+theorem sim_drop {s : State} {i : Nat} {h : Handle} (hI : Inv s) (hi : handleAt s i = some h) :
+    vview (dropHandle s i h) = (vview s).set i none := by
+  have D := dropHandle_spec hI hi
+  apply vview_eq
+  · simp [D.len]
+  · intro j
+    rw [D.view, vAt_set _ _ _ _ (by simpa using handleAt_lt hi), vAt_vview]
+
+theorem sim_push {s s' : State} {x : Bool × Tbl} (P : PushSpec s s' x) :
+    vview s' = vview s ++ [some x] := by
+  apply vview_eq
+  · simp [P.len]
+  · intro j
+    rw [P.view, vAt_push, vAt_vview]; simp
+
+/-- one implementation step is simulated by the value-semantics step -/
+structure Sim (s : State) (op : Op) : Prop where
+  inv : Inv (step s op).1
+  view : vview (step s op).1 = (vstep (vview s) op).1
+  out : (step s op).2 = (vstep (vview s) op).2
+
+theorem vAt_dead {s : State} {i : Nat} (hi : handleAt s i = none) : vAt (vview s) i = none := by
+  rw [vAt_vview, viewAt_of_none hi]
+
+theorem vAt_live {s : State} {i : Nat} {h : Handle} (hi : handleAt s i = some h) :
+    vAt (vview s) i = some (h.isModule, tblAt s h.cell) := by
+  rw [vAt_vview, viewAt_of_handle hi]
+
+theorem insertRaw_eq (s : State) (i : Nat) (h : Handle) (n : Name) (cb : Cb) :
+    insertRaw s i h n cb = writeMut s i h (fun t => Tbl.insert t n cb) := rfl
+
+/-- `verify_and_insert` against the value-level "taken ⇒ error, else insert" -/
+theorem sim_verifyAndInsert {s : State} {i : Nat} {h : Handle} (hI : Inv s) (hi : handleAt s i = some h)
+    (n : Name) (cb : Cb) :
+    Inv (verifyAndInsert s i h n cb).1 ∧
+    (verifyAndInsert s i h n cb).2 = (if Tbl.has (tblAt s h.cell) n then Out.err (.already n) else .ok) ∧
+    vview (verifyAndInsert s i h n cb).1 =
+      (if Tbl.has (tblAt s h.cell) n then vview s
+       else (vview s).set i (some (h.isModule, Tbl.insert (tblAt s h.cell) n cb))) := by
+  have M := makeMut_spec hI hi
+  unfold verifyAndInsert
+  rw [M.tbl]
+  cases ht : Tbl.has (tblAt s h.cell) n
+  · have W := writeMut_spec hI hi (fun t => Tbl.insert t n cb)
+    refine ⟨?_, ?_, ?_⟩
+    · simpa [insertRaw_eq] using W.inv
+    · simp
+    · simp [insertRaw_eq, sim_write hI hi]
+  · refine ⟨?_, ?_, ?_⟩
+    · simpa using M.inv
+    · simp
+    · simp [sim_makeMut hI hi]
+
+theorem sim_reg {s : State} (hI : Inv s) (k : RegKind) (i : Nat) (n : Name) (tag : Nat) :
+    Sim s (.reg k i n tag) := by
+  cases hi : handleAt s i with
+  | none =>
+    have hv := vAt_dead hi
+    constructor <;> simp [step, vstep, hi, hv, hI]
+  | some h =>
+    have hv := vAt_live hi
+    obtain ⟨h1, h2, h3⟩ := sim_verifyAndInsert hI hi n ⟨k.cbKind, tag⟩
+    by_cases hu : k ≠ .sync ∧ h.isModule = false
+    · constructor <;> simp [step, vstep, hi, hv, hu, hI]
+    · constructor
+      · simp only [step, hi, if_neg hu]; exact h1
+      · simp only [step, vstep, hi, hv, if_neg hu, h3]; split <;> rfl
+      · simp only [step, vstep, hi, hv, if_neg hu, h2]; split <;> rfl
+
+theorem sim_regsub {s : State} (hI : Inv s) (i : Nat) (sub unsub : Name) (tag : Nat) :
+    Sim s (.regsub i sub unsub tag) := by
+  cases hi : handleAt s i with
+  | none =>
+    have hv := vAt_dead hi
+    constructor <;> simp [step, vstep, hi, hv, hI]
+  | some h =>
+    have hv := vAt_live hi
+    by_cases hu : h.isModule = false
+    · constructor <;> simp [step, vstep, hi, hv, hu, hI]
+    · by_cases e : sub = unsub
+      · constructor <;> simp [step, vstep, hi, hv, hu, regSub, vRegSub, e, hI]
+      · by_cases t1 : Tbl.has (tblAt s h.cell) sub = true
+        · constructor <;> simp [step, vstep, hi, hv, hu, regSub, vRegSub, e, t1, hI]
+        · by_cases t2 : Tbl.has (tblAt s h.cell) unsub = true
+          · constructor <;> simp [step, vstep, hi, hv, hu, regSub, vRegSub, e, t1, t2, hI]
+          · -- both free: insert unsubscribe, then verify_and_insert subscribe (cannot fail)
+            have W := writeMut_spec hI hi (fun t => Tbl.insert t unsub ⟨.unsub, tag⟩)
+            have hv1 := W.view i
+            rw [if_pos rfl, viewAt_of_handle W.hAt] at hv1
+            have htbl : tblAt (writeMut s i h fun t => Tbl.insert t unsub ⟨.unsub, tag⟩) (mutCell s h)
+                = Tbl.insert (tblAt s h.cell) unsub ⟨.unsub, tag⟩ := by
+              simpa using hv1
+            obtain ⟨h1, h2, h3⟩ := sim_verifyAndInsert W.inv W.hAt sub ⟨.sub, tag⟩
+            have hfree : Tbl.has (Tbl.insert (tblAt s h.cell) unsub ⟨.unsub, tag⟩) sub = false := by
+              rw [Tbl.has_false, Tbl.find_insert, if_neg (fun e' => e e'.symm)]
+              rw [← Tbl.has_false]; simpa using t1
+            simp only [htbl, hfree] at h2 h3
+            have es : (step s (.regsub i sub unsub tag)) =
+                verifyAndInsert (writeMut s i h fun t => Tbl.insert t unsub ⟨.unsub, tag⟩) i
+                  { h with cell := mutCell s h } sub ⟨.sub, tag⟩ := by
+              simp [step, hi, hu, regSub, e, t1, t2, insertRaw_eq]
+            have ev : vstep (vview s) (.regsub i sub unsub tag) =
+                ((vview s).set i (some (h.isModule,
+                  Tbl.insert (Tbl.insert (tblAt s h.cell) unsub ⟨.unsub, tag⟩) sub ⟨.sub, tag⟩)), .ok) := by
+              simp [vstep, hv, hu, vRegSub, e, t1, t2]
+            constructor
+            · rw [es]; exact h1
+            · rw [es, ev, h3, sim_write hI hi]; simp
+            · rw [es, ev, h2]; simp
+
+theorem sim_alias {s : State} (hI : Inv s) (i : Nat) (al ex : Name) : Sim s (.alias i al ex) := by
+  cases hi : handleAt s i with
+  | none =>
+    have hv := vAt_dead hi
+    constructor <;> simp [step, vstep, hi, hv, hI]
+  | some h =>
+    have hv := vAt_live hi
+    by_cases hu : h.isModule = false
+    · constructor <;> simp [step, vstep, hi, hv, hu, hI]
+    · by_cases t1 : Tbl.has (tblAt s h.cell) al = true
+      · constructor <;> simp [step, vstep, hi, hv, hu, aliasOp, vAlias, t1, hI]
+      · cases hf : Tbl.find (tblAt s h.cell) ex with
+        | none => constructor <;> simp [step, vstep, hi, hv, hu, aliasOp, vAlias, t1, hf, hI]
+        | some cb =>
+          have W := writeMut_spec hI hi (fun t => Tbl.insert t al cb)
+          constructor
+          · simp only [step, hi, hu, aliasOp, t1, hf, insertRaw_eq]; exact W.inv
+          · simp [step, vstep, hi, hv, hu, aliasOp, vAlias, t1, hf, insertRaw_eq, sim_write hI hi]
+          · simp [step, vstep, hi, hv, hu, aliasOp, vAlias, t1, hf]
+
+theorem sim_remove {s : State} (hI : Inv s) (i : Nat) (n : Name) : Sim s (.remove i n) := by
+  cases hi : handleAt s i with
+  | none =>
+    have hv := vAt_dead hi
+    constructor <;> simp [step, vstep, hi, hv, hI]
+  | some h =>
+    have hv := vAt_live hi
+    by_cases hu : h.isModule = false
+    · constructor <;> simp [step, vstep, hi, hv, hu, hI]
+    · have W := writeMut_spec hI hi (fun t => Tbl.erase t n)
+      have M := makeMut_spec hI hi
+      have es : (removeOp s i h n).1 = writeMut s i h (fun t => Tbl.erase t n) := rfl
+      constructor
+      · simp only [step, hi, hu]; exact W.inv
+      · simp [step, vstep, hi, hv, hu, es, sim_write hI hi]
+      · simp [step, vstep, hi, hv, hu, removeOp, M.tbl]
+
+theorem sim_clone {s : State} (hI : Inv s) (i : Nat) (fr : Bool) : Sim s (.clone i fr) := by
+  cases hi : handleAt s i with
+  | none =>
+    have hv := vAt_dead hi
+    constructor <;> simp [step, vstep, hi, hv, hI]
+  | some h =>
+    have hv := vAt_live hi
+    have P := clone_spec hI hi (h.isModule && !fr)
+    constructor
+    · simp only [step, hi]; exact P.inv
+    · simp [step, vstep, hi, hv, sim_push P]
+    · simp [step, vstep, hi, hv]
+
+theorem sim_new {s : State} (hI : Inv s) (im : Bool) : Sim s (.new im) := by
+  have P := new_spec hI im
+  constructor
+  · simp only [step]; exact P.inv
+  · simp [step, vstep, sim_push P]
+  · simp [step, vstep]
+
+theorem sim_drop_op {s : State} (hI : Inv s) (i : Nat) : Sim s (.drop i) := by
+  cases hi : handleAt s i with
+  | none =>
+    have hv := vAt_dead hi
+    constructor <;> simp [step, vstep, hi, hv, hI]
+  | some h =>
+    have hv := vAt_live hi
+    constructor
+    · simp only [step, hi]; exact (dropHandle_spec hI hi).inv
+    · simp [step, vstep, hi, hv, sim_drop hI hi]
+    · simp [step, vstep, hi, hv]
+
+theorem sim_call {s : State} (hI : Inv s) (i : Nat) (n : Name) : Sim s (.call i n) := by
+  cases hi : handleAt s i with
+  | none =>
+    have hv := vAt_dead hi
+    constructor <;> simp [step, vstep, hi, hv, hI]
+  | some h =>
+    have hv := vAt_live hi
+    constructor <;> simp [step, vstep, hi, hv, hI]
+
+theorem sim_names {s : State} (hI : Inv s) (i : Nat) : Sim s (.names i) := by
+  cases hi : handleAt s i with
+  | none =>
+    have hv := vAt_dead hi
+    constructor <;> simp [step, vstep, hi, hv, hI]
+  | some h =>
+    have hv := vAt_live hi
+    constructor <;> simp [step, vstep, hi, hv, hI]
+
+
+/-- the moving half of `merge` -/
+theorem sim_mergeMove {s : State} (hI : Inv s) {d src : Nat} {hd hs : Handle}
+    (hdl : handleAt s d = some hd) (hsl : handleAt s src = some hs) (hne : d ≠ src) :
+    Inv (mergeMove s d hd src hs) ∧
+    vview (mergeMove s d hd src hs) =
+      ((vview s).set d (some (hd.isModule, Tbl.insertAll (tblAt s hd.cell) (tblAt s hs.cell)))).set src none := by
+  -- self.mut_callbacks()
+  have M1 := makeMut_spec hI hdl
+  have hs1 : handleAt (makeMut s d hd) src = some hs := by rw [M1.hOther src (Ne.symm hne)]; exact hsl
+  have hcell : hs.cell ≠ mutCell s hd := by
+    intro e
+    exact hne (M1.inv.unique M1.hAt (by simpa using M1.rc1) hs1 (by simpa using e))
+  -- other.mut_callbacks()
+  have M2 := makeMut_spec M1.inv hs1
+  have hd2 : handleAt (makeMut (makeMut s d hd) src hs) d = some { hd with cell := mutCell s hd } := by
+    rw [M2.hOther d hne]; exact M1.hAt
+  have rc2 : rcAt (makeMut (makeMut s d hd) src hs) (mutCell s hd) = 1 := by
+    rw [M2.rcOther _ M1.cellLt (Ne.symm hcell)]; exact M1.rc1
+  have tbl2 : tblAt (makeMut (makeMut s d hd) src hs) (mutCell (makeMut s d hd) hs) = tblAt s hs.cell := by
+    rw [M2.tbl]
+    have := viewAt_makeMut hI hdl src
+    rw [viewAt_of_handle hs1, viewAt_of_handle hsl] at this
+    simpa using this
+  -- drain
+  have I3 := inv_setTbl M2.inv (mutCell (makeMut s d hd) hs) []
+  have V3 := viewAt_setTbl M2.inv M2.hAt (by simpa using M2.rc1) []
+  simp only [] at V3
+  have hd3 : handleAt (setTbl (makeMut (makeMut s d hd) src hs) (mutCell (makeMut s d hd) hs) []) d
+      = some { hd with cell := mutCell s hd } := by simpa using hd2
+  have rc3 : rcAt (setTbl (makeMut (makeMut s d hd) src hs) (mutCell (makeMut s d hd) hs) []) (mutCell s hd) = 1 := by
+    simpa using rc2
+  have tbl3 : tblAt (setTbl (makeMut (makeMut s d hd) src hs) (mutCell (makeMut s d hd) hs) []) (mutCell s hd)
+      = tblAt s hd.cell := by
+    have h3 := V3 d
+    rw [if_neg hne, viewAt_of_handle hd3, viewAt_makeMut M1.inv hs1, viewAt_makeMut hI hdl,
+      viewAt_of_handle hdl] at h3
+    simpa using h3
+  -- insert into self
+  have I4 := inv_setTbl I3 (mutCell s hd)
+    (Tbl.insertAll (tblAt (setTbl (makeMut (makeMut s d hd) src hs) (mutCell (makeMut s d hd) hs) []) (mutCell s hd))
+      (tblAt (makeMut (makeMut s d hd) src hs) (mutCell (makeMut s d hd) hs)))
+  have V4 := viewAt_setTbl I3 hd3 (by simpa using rc3)
+    (Tbl.insertAll (tblAt (setTbl (makeMut (makeMut s d hd) src hs) (mutCell (makeMut s d hd) hs) []) (mutCell s hd))
+      (tblAt (makeMut (makeMut s d hd) src hs) (mutCell (makeMut s d hd) hs)))
+  simp only [] at V4
+  have hs4 : handleAt (setTbl (setTbl (makeMut (makeMut s d hd) src hs) (mutCell (makeMut s d hd) hs) []) (mutCell s hd)
+    (Tbl.insertAll (tblAt (setTbl (makeMut (makeMut s d hd) src hs) (mutCell (makeMut s d hd) hs) []) (mutCell s hd))
+      (tblAt (makeMut (makeMut s d hd) src hs) (mutCell (makeMut s d hd) hs)))) src
+      = some { hs with cell := mutCell (makeMut s d hd) hs } := by simpa using M2.hAt
+  -- other goes out of scope
+  have D := dropHandle_spec I4 hs4
+  refine ⟨D.inv, ?_⟩
+  apply vview_eq
+  · simp only [mergeMove]; rw [D.len]; simp [M2.len, M1.len]
+  · intro j
+    have hdlt := handleAt_lt hdl
+    have hslt := handleAt_lt hsl
+    rw [vAt_set _ _ _ _ (by simpa using hslt), vAt_set _ _ _ _ (by simpa using hdlt), vAt_vview]
+    have := D.view j
+    simp only [mergeMove]
+    rw [this]
+    by_cases hj : j = src
+    · simp [hj]
+    · rw [if_neg hj, if_neg hj, V4 j]
+      by_cases hjd : j = d
+      · rw [if_pos hjd, if_pos hjd, tbl3, tbl2]
+      · rw [if_neg hjd, if_neg hjd, V3 j, if_neg hj, viewAt_makeMut M1.inv hs1, viewAt_makeMut hI hdl]
+
+set_option linter.unusedSimpArgs false in
+theorem sim_merge {s : State} (hI : Inv s) (d src : Nat) : Sim s (.merge d src) := by
+  cases hdl : handleAt s d with
+  | none =>
+    have hv := vAt_dead hdl
+    constructor <;> simp [step, vstep, hdl, hv, hI]
+  | some hd =>
+    cases hsl : handleAt s src with
+    | none =>
+      have hv := vAt_dead hsl
+      have hv' := vAt_live hdl
+      constructor <;> simp [step, vstep, hdl, hsl, hv, hv', hI]
+    | some hs =>
+      have hvd := vAt_live hdl
+      have hvs := vAt_live hsl
+      by_cases e : d = src
+      · constructor <;> simp [step, vstep, hdl, hsl, hvd, hvs, e, hI]
+      · cases hf : Tbl.firstTaken (tblAt s hd.cell) (Tbl.names (tblAt s hs.cell)) with
+        | some k =>
+          constructor
+          · simp only [step, hdl, hsl, e, mergeOp, hf, if_false]; exact (dropHandle_spec hI hsl).inv
+          · simp [step, vstep, hdl, hsl, hvd, hvs, e, mergeOp, vMerge, hf, sim_drop hI hsl]
+          · simp [step, vstep, hdl, hsl, hvd, hvs, e, mergeOp, vMerge, hf]
+        | none =>
+          obtain ⟨h1, h2⟩ := sim_mergeMove hI hdl hsl e
+          constructor
+          · simp only [step, hdl, hsl, e, mergeOp, hf, if_false]; exact h1
+          · simp [step, vstep, hdl, hsl, hvd, hvs, e, mergeOp, vMerge, hf, h2]
+          · simp [step, vstep, hdl, hsl, hvd, hvs, e, mergeOp, vMerge, hf]
+
+theorem step_sim {s : State} (hI : Inv s) (op : Op) : Sim s op := by
+  cases op with
+  | new im => exact sim_new hI im
+  | reg k h n tag => exact sim_reg hI k h n tag
+  | regsub h a b tag => exact sim_regsub hI h a b tag
+  | alias h a b => exact sim_alias hI h a b
+  | merge d s' => exact sim_merge hI d s'
+  | remove h n => exact sim_remove hI h n
+  | clone h f => exact sim_clone hI h f
+  | drop h => exact sim_drop_op hI h
+  | call h n => exact sim_call hI h n
+  | names h => exact sim_names hI h
+
+
+/-! ## Part D — the value-semantics layer against the map reading -/
+
+/-- keys of every live table are pairwise distinct -/
+def VInv (v : VState) : Prop := ∀ i im t, vAt v i = some (im, t) → Tbl.Uniq t
+
+theorem vinv_nil : VInv [] := by
+  intro i im t h; simp [vAt] at h
+
+theorem vinv_set {v : VState} (hv : VInv v) (i : Nat) (x : Option (Bool × Tbl))
+    (hx : ∀ im t, x = some (im, t) → Tbl.Uniq t) : VInv (v.set i x) := by
+  intro j im t h
+  by_cases hi : i < v.length
+  · rw [vAt_set _ _ _ _ hi] at h
+    split at h
+    · exact hx im t h
+    · exact hv j im t h
+  · rw [List.set_eq_of_length_le (by omega)] at h; exact hv j im t h
+
+theorem vinv_push {v : VState} (hv : VInv v) (x : Option (Bool × Tbl))
+    (hx : ∀ im t, x = some (im, t) → Tbl.Uniq t) : VInv (v ++ [x]) := by
+  intro j im t h
+  rw [vAt_push] at h
+  split at h
+  · exact hx im t h
+  · exact hv j im t h
+
+theorem vstep_inv {v : VState} (hv : VInv v) (op : Op) : VInv (vstep v op).1 := by
+  cases op with
+  | new im =>
+    simp only [vstep]; apply vinv_push hv; intro im' t h; cases h; trivial
+  | reg k i n tag =>
+    simp only [vstep]
+    cases h : vAt v i with
+    | none => exact hv
+    | some x =>
+      obtain ⟨im, t⟩ := x
+      simp only []
+      split
+      · exact hv
+      · split
+        · exact hv
+        · apply vinv_set hv; intro im' t' e; cases e; exact Tbl.uniq_insert (hv i im t h) _ _
+  | regsub i sub unsub tag =>
+    simp only [vstep]
+    cases h : vAt v i with
+    | none => exact hv
+    | some x =>
+      obtain ⟨im, t⟩ := x
+      simp only [vRegSub]
+      repeat' split
+      all_goals first
+        | exact hv
+        | (apply vinv_set hv; intro im' t' e; cases e
+           exact Tbl.uniq_insert (Tbl.uniq_insert (hv i im t h) _ _) _ _)
+  | alias i al ex =>
+    simp only [vstep]
+    cases h : vAt v i with
+    | none => exact hv
+    | some x =>
+      obtain ⟨im, t⟩ := x
+      simp only [vAlias]
+      repeat' split
+      all_goals first
+        | exact hv
+        | (apply vinv_set hv; intro im' t' e; cases e; exact Tbl.uniq_insert (hv i im t h) _ _)
+  | merge d src =>
+    simp only [vstep]
+    cases h : vAt v d with
+    | none => exact hv
+    | some x =>
+      obtain ⟨im, t⟩ := x
+      cases h' : vAt v src with
+      | none => exact hv
+      | some y =>
+        obtain ⟨im', o⟩ := y
+        simp only [vMerge]
+        repeat' split
+        · exact hv
+        · apply vinv_set hv; intro _ _ e; cases e
+        · apply vinv_set _ _ _ (by intro _ _ e; cases e)
+          apply vinv_set hv; intro im' t' e; cases e; exact Tbl.uniq_insertAll (hv d im t h) _
+  | remove i n =>
+    simp only [vstep]
+    cases h : vAt v i with
+    | none => exact hv
+    | some x =>
+      obtain ⟨im, t⟩ := x
+      simp only []
+      split
+      · exact hv
+      · apply vinv_set hv; intro im' t' e; cases e; exact Tbl.uniq_erase (hv i im t h) _
+  | clone i fr =>
+    simp only [vstep]
+    cases h : vAt v i with
+    | none => exact hv
+    | some x =>
+      obtain ⟨im, t⟩ := x
+      apply vinv_push hv; intro im' t' e; cases e; exact hv i im t h
+  | drop i =>
+    simp only [vstep]
+    cases h : vAt v i with
+    | none => exact hv
+    | some x => apply vinv_set hv; intro _ _ e; cases e
+  | call i n =>
+    simp only [vstep]
+    cases h : vAt v i with
+    | none => exact hv
+    | some x => exact hv
+  | names i =>
+    simp only [vstep]
+    cases h : vAt v i with
+    | none => exact hv
+    | some x => exact hv
+
+theorem vrun_inv {v : VState} (hv : VInv v) (ops : List Op) : VInv (vrun v ops).1 := by
+  induction ops generalizing v with
+  | nil => exact hv
+  | cons op r ih => simp only [vrun]; exact ih (vstep_inv hv op)
+
+
+/-- an operation changes only the handles it names (value semantics: isolation by construction) -/
+theorem vstep_frame (v : VState) (op : Op) (j : Nat) (hj : j ∉ op.touched) (hl : j < v.length) :
+    vAt (vstep v op).1 j = vAt v j := by
+  have hne : j ≠ v.length := by omega
+  cases op with
+  | new im => simp [vstep, vAt_push, hne]
+  | reg k i n tag =>
+    have hji : j ≠ i := by simpa [Op.touched] using hj
+    simp only [vstep]
+    cases h : vAt v i with
+    | none => rfl
+    | some x =>
+      obtain ⟨im, t⟩ := x
+      simp only []
+      repeat' split
+      all_goals first | rfl | (rw [vAt_set _ _ _ _ (vAt_lt h), if_neg hji])
+  | regsub i sub unsub tag =>
+    have hji : j ≠ i := by simpa [Op.touched] using hj
+    simp only [vstep]
+    cases h : vAt v i with
+    | none => rfl
+    | some x =>
+      obtain ⟨im, t⟩ := x
+      simp only [vRegSub]
+      repeat' split
+      all_goals first | rfl | (rw [vAt_set _ _ _ _ (vAt_lt h), if_neg hji])
+  | alias i al ex =>
+    have hji : j ≠ i := by simpa [Op.touched] using hj
+    simp only [vstep]
+    cases h : vAt v i with
+    | none => rfl
+    | some x =>
+      obtain ⟨im, t⟩ := x
+      simp only [vAlias]
+      repeat' split
+      all_goals first | rfl | (rw [vAt_set _ _ _ _ (vAt_lt h), if_neg hji])
+  | merge d src =>
+    have hjd : j ≠ d ∧ j ≠ src := by simpa [Op.touched] using hj
+    simp only [vstep]
+    cases h : vAt v d with
+    | none => rfl
+    | some x =>
+      obtain ⟨im, t⟩ := x
+      cases h' : vAt v src with
+      | none => rfl
+      | some y =>
+        obtain ⟨im', o⟩ := y
+        simp only [vMerge]
+        repeat' split
+        · rfl
+        · rw [vAt_set _ _ _ _ (vAt_lt h'), if_neg hjd.2]
+        · rw [vAt_set _ _ _ _ (by simpa using vAt_lt h'), if_neg hjd.2, vAt_set _ _ _ _ (vAt_lt h), if_neg hjd.1]
+  | remove i n =>
+    have hji : j ≠ i := by simpa [Op.touched] using hj
+    simp only [vstep]
+    cases h : vAt v i with
+    | none => rfl
+    | some x =>
+      obtain ⟨im, t⟩ := x
+      simp only []
+      repeat' split
+      all_goals first | rfl | (rw [vAt_set _ _ _ _ (vAt_lt h), if_neg hji])
+  | clone i fr =>
+    simp only [vstep]
+    cases h : vAt v i with
+    | none => rfl
+    | some x => obtain ⟨im, t⟩ := x; simp [vAt_push, hne]
+  | drop i =>
+    have hji : j ≠ i := by simpa [Op.touched] using hj
+    simp only [vstep]
+    cases h : vAt v i with
+    | none => rfl
+    | some x => simp only []; rw [vAt_set _ _ _ _ (vAt_lt h), if_neg hji]
+  | call i n =>
+    simp only [vstep]
+    cases h : vAt v i with
+    | none => rfl
+    | some x => rfl
+  | names i =>
+    simp only [vstep]
+    cases h : vAt v i with
+    | none => rfl
+    | some x => rfl
+
+/-- a failed operation leaves the whole state as it was, except that a failed `merge` has
+consumed (dropped) the module that was moved into it -/
+theorem vstep_err {v : VState} {op : Op} {e : Err} (h : (vstep v op).2 = .err e) :
+    (vstep v op).1 = (match op.consumed with | some src => v.set src none | none => v) := by
+  cases op with
+  | new im => simp [vstep] at h
+  | reg k i n tag =>
+    simp only [vstep, Op.consumed] at h ⊢
+    cases hv : vAt v i with
+    | none => rfl
+    | some x =>
+      obtain ⟨im, t⟩ := x
+      simp only [hv] at h ⊢
+      repeat' split
+      all_goals first | rfl | (simp_all)
+  | regsub i sub unsub tag =>
+    simp only [vstep, Op.consumed] at h ⊢
+    cases hv : vAt v i with
+    | none => rfl
+    | some x =>
+      obtain ⟨im, t⟩ := x
+      simp only [hv, vRegSub] at h ⊢
+      repeat' split
+      all_goals first | rfl | (simp_all)
+  | alias i al ex =>
+    simp only [vstep, Op.consumed] at h ⊢
+    cases hv : vAt v i with
+    | none => rfl
+    | some x =>
+      obtain ⟨im, t⟩ := x
+      simp only [hv, vAlias] at h ⊢
+      repeat' split
+      all_goals first | rfl | (simp_all)
+  | merge d src =>
+    simp only [vstep, Op.consumed] at h ⊢
+    cases hv : vAt v d with
+    | none => simp [hv] at h
+    | some x =>
+      obtain ⟨im, t⟩ := x
+      cases hv' : vAt v src with
+      | none => simp [hv, hv'] at h
+      | some y =>
+        obtain ⟨im', o⟩ := y
+        simp only [hv, hv', vMerge] at h ⊢
+        repeat' split
+        all_goals first | rfl | (simp_all)
+  | remove i n =>
+    simp only [vstep] at h
+    cases hv : vAt v i with
+    | none => simp [hv] at h
+    | some x => obtain ⟨im, t⟩ := x; simp only [hv] at h; split at h <;> simp at h
+  | clone i fr =>
+    simp only [vstep] at h
+    cases hv : vAt v i with
+    | none => simp [hv] at h
+    | some x => obtain ⟨im, t⟩ := x; simp [hv] at h
+  | drop i =>
+    simp only [vstep] at h
+    cases hv : vAt v i with
+    | none => simp [hv] at h
+    | some x => simp [hv] at h
+  | call i n =>
+    simp only [vstep] at h
+    cases hv : vAt v i with
+    | none => simp [hv] at h
+    | some x => obtain ⟨im, t⟩ := x; simp only [hv, callOut] at h; split at h <;> simp at h
+  | names i =>
+    simp only [vstep] at h
+    cases hv : vAt v i with
+    | none => simp [hv] at h
+    | some x => obtain ⟨im, t⟩ := x; simp [hv] at h
+
+
+theorem vstep_ok {v : VState} {op : Op} {i : Nat} (hv : VInv v) (h : (vstep v op).2 = .ok)
+    (ht : op.target = some i) :
+    ∃ im t t', vAt v i = some (im, t) ∧ vAt (vstep v op).1 i = some (im, t') ∧
+      AddsExactly t (op.added (vAt v)) t' := by
+  have hv' := vstep_inv hv op
+  cases op with
+  | reg k j n tag =>
+    simp only [Op.target, Option.some.injEq] at ht; subst ht
+    simp only [vstep] at h ⊢
+    cases hj : vAt v j with
+    | none => simp [hj] at h
+    | some x =>
+      obtain ⟨im, t⟩ := x
+      simp only [hj] at h ⊢
+      split at h
+      · simp at h
+      · split at h
+        · simp at h
+        · next hu hn =>
+          rw [if_neg hu, if_neg hn]
+          have hfree : Tbl.find t n = none := by rw [← Tbl.has_false]; simpa using hn
+          refine ⟨im, t, _, rfl, by rw [vAt_set _ _ _ _ (vAt_lt hj), if_pos rfl], ?_, ?_, ?_⟩
+          · intro k; rw [Tbl.find_insert]; simp only [Op.added, Tbl.find]; split <;> rfl
+          · intro k hk; simp [Op.added, Tbl.names] at hk; subst hk; exact hfree
+          · exact Tbl.uniq_insert (hv j im t hj) _ _
+  | regsub j sub unsub tag =>
+    simp only [Op.target, Option.some.injEq] at ht; subst ht
+    simp only [vstep] at h ⊢
+    cases hj : vAt v j with
+    | none => simp [hj] at h
+    | some x =>
+      obtain ⟨im, t⟩ := x
+      simp only [hj, vRegSub] at h ⊢
+      split at h
+      · simp at h
+      · next hu =>
+        split at h
+        · simp at h
+        · next hne =>
+          split at h
+          · simp at h
+          · next h1 =>
+            split at h
+            · simp at h
+            · next h2 =>
+              rw [if_neg hu, if_neg hne, if_neg h1, if_neg h2]
+              have f1 : Tbl.find t sub = none := by rw [← Tbl.has_false]; simpa using h1
+              have f2 : Tbl.find t unsub = none := by rw [← Tbl.has_false]; simpa using h2
+              refine ⟨im, t, _, rfl, by rw [vAt_set _ _ _ _ (vAt_lt hj), if_pos rfl], ?_, ?_, ?_⟩
+              · intro k
+                rw [Tbl.find_insert, Tbl.find_insert]
+                simp only [Op.added, Tbl.find]
+                by_cases e1 : sub = k
+                · have : ¬ unsub = k := fun e2 => hne (e1.trans e2.symm)
+                  simp [e1, this]
+                · by_cases e2 : unsub = k <;> simp [e1, e2]
+              · intro k hk
+                simp [Op.added, Tbl.names] at hk
+                rcases hk with rfl | rfl
+                · exact f2
+                · exact f1
+              · exact Tbl.uniq_insert (Tbl.uniq_insert (hv j im t hj) _ _) _ _
+  | alias j al ex =>
+    simp only [Op.target, Option.some.injEq] at ht; subst ht
+    simp only [vstep] at h ⊢
+    cases hj : vAt v j with
+    | none => simp [hj] at h
+    | some x =>
+      obtain ⟨im, t⟩ := x
+      simp only [hj, vAlias] at h ⊢
+      split at h
+      · simp at h
+      · next hu =>
+        split at h
+        · simp at h
+        · next h1 =>
+          cases hf : Tbl.find t ex with
+          | none => simp [hf] at h
+          | some cb =>
+            rw [if_neg hu, if_neg h1]
+            simp only []
+            have f1 : Tbl.find t al = none := by rw [← Tbl.has_false]; simpa using h1
+            refine ⟨im, t, _, rfl, by rw [vAt_set _ _ _ _ (vAt_lt hj), if_pos rfl], ?_, ?_, ?_⟩
+            · intro k; rw [Tbl.find_insert]; simp only [Op.added, hj, hf, Tbl.find]; split <;> rfl
+            · intro k hk; simp [Op.added, hj, hf, Tbl.names] at hk; subst hk; exact f1
+            · exact Tbl.uniq_insert (hv j im t hj) _ _
+  | merge d src =>
+    simp only [Op.target, Option.some.injEq] at ht; subst ht
+    simp only [vstep] at h ⊢
+    cases hd : vAt v d with
+    | none => simp [hd] at h
+    | some x =>
+      obtain ⟨im, t⟩ := x
+      cases hs : vAt v src with
+      | none => simp [hd, hs] at h
+      | some y =>
+        obtain ⟨im', o⟩ := y
+        simp only [hd, hs, vMerge] at h ⊢
+        split at h
+        · simp at h
+        · next hne =>
+          rw [if_neg hne]
+          cases hf : Tbl.firstTaken t (Tbl.names o) with
+          | some k => simp [hf] at h
+          | none =>
+            simp only []
+            have hdl := vAt_lt hd
+            have hsl := vAt_lt hs
+            refine ⟨im, t, Tbl.insertAll t o, rfl, ?_, ?_, ?_, ?_⟩
+            · rw [vAt_set _ _ _ _ (by simpa using hsl), if_neg hne, vAt_set _ _ _ _ hdl, if_pos rfl]
+            · intro k; simp only [Op.added, hs]; exact Tbl.find_insertAll t (hv src im' o hs) k
+            · intro k hk; simp only [Op.added, hs] at hk; exact (Tbl.firstTaken_none.mp hf) k hk
+            · exact Tbl.uniq_insertAll (hv d im t hd) _
+  | new im => simp [Op.target] at ht
+  | remove j n => simp [Op.target] at ht
+  | clone j fr => simp [Op.target] at ht
+  | drop j => simp [Op.target] at ht
+  | call j n => simp [Op.target] at ht
+  | names j => simp [Op.target] at ht
+
+theorem find_ne_none_iff_has {t : Tbl} {n : Name} : Tbl.find t n ≠ none ↔ Tbl.has t n = true := by
+  rw [Tbl.has_eq]; cases Tbl.find t n <;> simp
+
+/-- an applicable registration fails exactly in the situations the statement names -/
+theorem vstep_err_iff (v : VState) (op : Op) (ha : op.applicable (vAt v)) :
+    (∃ e, (vstep v op).2 = .err e) ↔ op.conflict (vAt v) := by
+  cases op with
+  | reg k i n tag =>
+    obtain ⟨im, t, hi, hk⟩ := ha
+    have hu : ¬ (k ≠ .sync ∧ im = false) := by
+      rintro ⟨a, b⟩; rcases hk with hk | hk
+      · exact a hk
+      · rw [hk] at b; cases b
+    simp only [vstep, hi, if_neg hu, Op.conflict]
+    by_cases ht : Tbl.has t n = true
+    · simp only [ht, if_true]
+      exact ⟨fun _ => ⟨im, t, rfl, find_ne_none_iff_has.mpr ht⟩, fun _ => ⟨_, rfl⟩⟩
+    · simp only [ht]
+      constructor
+      · rintro ⟨e, he⟩; simp at he
+      · rintro ⟨im', t', e, hf⟩; cases e; exact absurd (find_ne_none_iff_has.mp hf) ht
+  | regsub i sub unsub tag =>
+    obtain ⟨t, hi⟩ := ha
+    simp only [vstep, hi, vRegSub, Op.conflict]
+    constructor
+    · rintro ⟨e, he⟩
+      refine ⟨true, t, rfl, ?_⟩
+      by_cases e1 : sub = unsub
+      · exact Or.inl e1
+      · by_cases h1 : Tbl.has t sub = true
+        · exact Or.inr (Or.inl (find_ne_none_iff_has.mpr h1))
+        · by_cases h2 : Tbl.has t unsub = true
+          · exact Or.inr (Or.inr (find_ne_none_iff_has.mpr h2))
+          · simp [e1, h1, h2] at he
+    · rintro ⟨im', t', e, hc⟩
+      cases e
+      by_cases e1 : sub = unsub
+      · exact ⟨.subConflict sub, by simp [e1]⟩
+      · by_cases h1 : Tbl.has t sub = true
+        · exact ⟨.already sub, by simp [e1, h1]⟩
+        · by_cases h2 : Tbl.has t unsub = true
+          · exact ⟨.already unsub, by simp [e1, h1, h2]⟩
+          · rcases hc with hc | hc | hc
+            · exact absurd hc e1
+            · exact absurd (find_ne_none_iff_has.mp hc) h1
+            · exact absurd (find_ne_none_iff_has.mp hc) h2
+  | alias i al ex =>
+    obtain ⟨t, hi⟩ := ha
+    simp only [vstep, hi, vAlias, Op.conflict]
+    constructor
+    · rintro ⟨e, he⟩
+      refine ⟨true, t, rfl, ?_⟩
+      by_cases h1 : Tbl.has t al = true
+      · exact Or.inl (find_ne_none_iff_has.mpr h1)
+      · cases hf : Tbl.find t ex with
+        | none => exact Or.inr rfl
+        | some cb => simp [h1, hf] at he
+    · rintro ⟨im', t', e, hc⟩
+      cases e
+      by_cases h1 : Tbl.has t al = true
+      · exact ⟨.already al, by simp [h1]⟩
+      · cases hf : Tbl.find t ex with
+        | none => exact ⟨.notFound ex, by simp [h1]⟩
+        | some cb =>
+          rcases hc with hc | hc
+          · exact absurd (find_ne_none_iff_has.mp hc) h1
+          · rw [hf] at hc; cases hc
+  | merge d src =>
+    obtain ⟨hne, ⟨x, hd⟩, ⟨y, hs⟩⟩ := ha
+    obtain ⟨im, t⟩ := x
+    obtain ⟨im', o⟩ := y
+    simp only [vstep, hd, hs, if_neg hne, vMerge, Op.conflict]
+    cases hf : Tbl.firstTaken t (Tbl.names o) with
+    | some k =>
+      have := Tbl.firstTaken_some hf
+      simp only []
+      refine ⟨fun _ => ⟨im, t, im', o, rfl, rfl, k, find_ne_none_iff_has.mpr this.2, ?_⟩, fun _ => ⟨_, rfl⟩⟩
+      have hm := Tbl.mem_names.mp this.1
+      intro e; rw [e] at hm; cases hm
+    | none =>
+      simp only []
+      constructor
+      · rintro ⟨e, he⟩; simp at he
+      · rintro ⟨_, _, _, _, e1, e2, k, h1, h2⟩
+        cases e1; cases e2
+        have hk : k ∈ Tbl.names o := by
+          rw [Tbl.mem_names]; cases hh : Tbl.find o k <;> simp_all
+        exact absurd ((Tbl.firstTaken_none.mp hf) k hk) h1
+  | new im => simp [vstep, Op.conflict]
+  | remove i n =>
+    obtain ⟨t, hi⟩ := ha
+    simp [vstep, hi, Op.conflict]
+  | clone i fr =>
+    simp only [vstep, Op.conflict]
+    cases vAt v i with
+    | none => simp
+    | some x => simp
+  | drop i =>
+    simp only [vstep, Op.conflict]
+    cases vAt v i with
+    | none => simp
+    | some x => simp
+  | call i n =>
+    simp only [vstep, Op.conflict, callOut]
+    cases vAt v i with
+    | none => simp
+    | some x => obtain ⟨_, t⟩ := x; simp only []; cases Tbl.find t n <;> simp
+  | names i =>
+    simp only [vstep, Op.conflict]
+    cases vAt v i with
+    | none => simp
+    | some x => simp
+
+
+/-! ## whole histories -/
+
+theorem vview_init : vview State.init = [] := rfl
+
+theorem run_sim {s : State} (hI : Inv s) (ops : List Op) :
+    Inv (run s ops).1 ∧ vview (run s ops).1 = (vrun (vview s) ops).1 ∧
+      (run s ops).2 = (vrun (vview s) ops).2 := by
+  induction ops generalizing s with
+  | nil => exact ⟨hI, rfl, rfl⟩
+  | cons op r ih =>
+    have S := step_sim hI op
+    obtain ⟨h1, h2, h3⟩ := ih S.inv
+    simp only [run, vrun]
+    rw [← S.view, ← S.out]
+    exact ⟨h1, h2, by rw [h3]⟩
+
+/-- `reachable_inv`: the heap invariant holds after every history -/
+theorem reachable_inv (ops : List Op) : Inv (run State.init ops).1 := (run_sim inv_init ops).1
+
+theorem reachable_vinv (ops : List Op) : VInv (vview (run State.init ops).1) := by
+  rw [(run_sim inv_init ops).2.1, vview_init]
+  exact vrun_inv vinv_nil ops
+
 end Jrpc.Registry
